@@ -207,6 +207,35 @@ class ElemRef:
         return f'ElemRef({self.mref}, {self.key})'
 
 
+class ExtObj(HObj):
+    """Extension point: a heap object kind defined outside the core (pyvc/ext_*.py).  The core only
+    dispatches to these methods; anything not overridden is Unsupported (never silently skipped)."""
+
+    def ext_truth(self, ex, ref):
+        raise NotImplementedError
+
+    def ext_len(self, ex, ref):
+        raise NotImplementedError
+
+    def ext_for(self, ex, ref, stmt, spec):
+        """execute the for statement `stmt` over this object (spec: its LoopSpec or None)"""
+        raise NotImplementedError
+
+    def ext_method(self, ex, ref, name, args, kwargs):
+        raise NotImplementedError
+
+    def ext_subscript(self, ex, ref, i):
+        raise NotImplementedError
+
+    def ext_havoc(self, ex, ref, hint):
+        """forget the content (loop / await / callee havoc of a location holding this object)"""
+        raise NotImplementedError
+
+    def ext_unchanged(self, ex, other):
+        """term / bool: `other` (same object in another heap) has the same content (frame check)"""
+        raise NotImplementedError
+
+
 class Frame(HObj):
     def __init__(self, vars=None):
         self.vars = vars if vars is not None else {}
